@@ -29,12 +29,15 @@ pub const ENC_NONE: u32 = 0xFFFF_FFFE;
 pub enum HOp {
     Ev(KeyCode, KeyState),
     Mode(usize),
+    /// a further switch of `Keyboard` that the tree offers (found by build.rs)
+    Extra(usize),
 }
 impl HOp {
     pub fn show(&self) -> String {
         match self {
             HOp::Ev(k, s) => format!("{}({:?})", state_str(*s), k),
             HOp::Mode(m) => format!("set_ctrl_handling({})", mode_str(MODES[*m])),
+            HOp::Extra(i) => extra_kb_op_names().get(*i).copied().unwrap_or("?").to_string(),
         }
     }
 }
@@ -44,7 +47,12 @@ impl HOp {
 pub fn history(rng: &mut Rng, focus: &[KeyCode], all: &[KeyCode], len: usize) -> Vec<HOp> {
     let mut ops = Vec::with_capacity(len);
     let mut k = *rng.pick(focus);
+    let nx = extra_kb_op_names().len();
     while ops.len() < len {
+        if nx > 0 && rng.below(20) == 0 {
+            ops.push(HOp::Extra(rng.below(nx as u64) as usize));
+            continue;
+        }
         match rng.below(100) {
             0..=44 => ops.push(HOp::Ev(k, KeyState::Down)),
             45..=52 => ops.push(HOp::Ev(k, KeyState::Up)),
@@ -79,7 +87,8 @@ fn judge(cube: &Cube, acc: &dyn Fn(usize, usize, u16, usize) -> Acc, li: usize, 
             *judged += 1;
             let own = 0x8000_0000 | kidx(k) as u32;
             let alias_ok = m & B_NUMLOCK == 0 && numpad_alias(k).map(|a| got == (0x8000_0000 | kidx(a) as u32)).unwrap_or(false);
-            if !enc_is_raw(got) || got == own || alias_ok {
+            // no decoded key at all is C14's matter, not a raw key code of another key
+            if got == ENC_NONE || !enc_is_raw(got) || got == own || alias_ok {
                 None
             } else {
                 Some(format!("Raw({:?}) or its NumLock-off alias", k))
@@ -178,6 +187,7 @@ pub fn through_decoder(prop: &str, rep: &mut Report, cube: &Cube, focus: &[KeyCo
                 for (i, op) in ops.iter().enumerate() {
                     match op {
                         HOp::Mode(m) => kb.set_ctrl_handling(MODES[*m]),
+                        HOp::Extra(x) => extra_kb_op!(kb, *x),
                         HOp::Ev(k, st) => {
                             let out = kb.process_keyevent(KeyEvent::new(*k, *st));
                             if *st == KeyState::Up {
